@@ -398,7 +398,7 @@ func (g *gen) symbol() slip.Object {
 
 var safeSymbols = []string{"foo", "bar", "a", "x1", "car", "Foo", "FOO", "fooBar", "a-b", "*x*", "+", "-", "1+", "a.b", "...", "<=", "a:b", "$v", "%", "=", "~a", "^", "_",
 	"tt", "nile", ":key", ":Key", ":", ":1", "quote", "lambda", "u", "defun", "&rest", "a@b", "x/y"}
-var safePipeSymbols = []string{"a b", "a(b", "(", ")", "'", "a'b", "\"", ";", "a;b", "#", "a#", ",", "`", "a&b", "[", "]", "{", "}", "!", "a!", "A B", "Hello World", "x y z", "", "123", "-5", "1.", "1e5", "1d0", "1/2", "2s3", "a|b", "|", "a\\b", "\\", "a\x01b", "a\tb", "x|y z", ":a b", ":(", ":a|b", "a?", "?"}
+var safePipeSymbols = []string{"a b", "a(b", "(", ")", "'", "a'b", "\"", ";", "a;b", "#", "a#", ",", "`", "a&b", "[", "]", "{", "}", "!", "a!", "A B", "Hello World", "x y z", "", "123", "-5", "1.", "1e5", "1d0", "1/2", "2s3", "a|b", "|", "a\\b", "\\", "a\x01b", "a\tb", "x|y z", ":a b", ":(", ":a|b", "a?", "?", "."}
 
 func (g *gen) safeAtom() slip.Object {
 	r := g.rng()
@@ -905,6 +905,15 @@ func repairedCases() (out []repairedCase) {
 	for _, name := range []string{"日本", "—x", "x日", "日 本", "日本語-x", "𝄢"} {
 		for _, c := range []cfg{flat, with(pretty, func(c *cfg) { c.pcase = "up" }), with(flat, func(c *cfg) { c.pcase = "cap" })} {
 			out = append(out, repairedCase{"C03-8", c, slip.List{slip.Symbol(name), slip.Symbol("x")}})
+		}
+	}
+	// C03-9: the symbol named . in every place of a list and as the tail of a dotted pair
+	dot, a, b := slip.Symbol("."), slip.Symbol("a"), slip.Symbol("b")
+	for _, o := range []slip.Object{dot, slip.List{a, dot, b}, slip.List{dot, a, b}, slip.List{a, b, dot}, slip.List{dot}, slip.List{dot, dot, dot},
+		slip.List{a, slip.Tail{Value: dot}}, slip.List{a, dot, slip.Tail{Value: b}}, slip.List{slip.Symbol(".."), slip.Symbol("..."), slip.Symbol("a.b")},
+		slip.NewVector(3, slip.TrueSymbol, nil, slip.List{a, dot, b}, false)} {
+		for _, c := range []cfg{flat, pretty, with(pretty, func(c *cfg) { c.pcase = "up"; c.margin = 2 })} {
+			out = append(out, repairedCase{"C03-9", c, o})
 		}
 	}
 	return
